@@ -3,7 +3,9 @@
 // Three case families, all through the public API:
 //
 //	M  media type strings  (PackManifest v1.0 with ConfigDescriptor.MediaType = s on a null pusher)
-//	T  created timestamps  (time.Parse(time.RFC3339, s), the function pack.go calls)
+//	T  created timestamps  (accepted or refused by pack.go's own validation, observed through PackManifest)
+//	L  the same strings through time.Parse(time.RFC3339, s) alone (first half of validateRFC3339)
+//	U  byte strings through json.Marshal/Unmarshal (coercion of invalid UTF-8)
 //	K  whole pack calls over a recording target (memory / OCI layout / file store,
 //	   with or without Exists, empty or pre-filled, optional injected storage fault)
 //
@@ -17,7 +19,7 @@ import (
 	"bytes"
 	"context"
 	"crypto/sha256"
-	_ "crypto/sha512"
+	"crypto/sha512"
 	"encoding/hex"
 	"encoding/json"
 	"errors"
@@ -30,6 +32,7 @@ import (
 	"strconv"
 	"strings"
 	"time"
+	"unicode/utf8"
 
 	"github.com/opencontainers/go-digest"
 	ocispec "github.com/opencontainers/image-spec/specs-go/v1"
@@ -201,7 +204,27 @@ func createdAccepted(s string) (bool, error) {
 	return false, err
 }
 
+// parseCase: time.Parse(time.RFC3339, s) itself against the lenient recogniser of the model (the
+// first half of validateRFC3339), and against the documented lenient grammar.
+func parseCase(s string) {
+	id := run.NewID()
+	_, err := time.Parse(time.RFC3339, s)
+	obs := "0"
+	if err == nil {
+		obs = "1"
+		run.Count("parse_accepted")
+	} else {
+		run.Count("parse_rejected")
+	}
+	run.Case(id, "L "+common.Hex(s), obs)
+	if goRFC3339(s) != (err == nil) {
+		run.OracleFail(id, "time-recogniser", fmt.Sprintf("time.Parse(RFC3339, %q) ok=%v but the documented (lenient) grammar says %v", s, err == nil, goRFC3339(s)),
+			map[string]string{"op": "L", "hex": common.Hex(s)})
+	}
+}
+
 func timeCase(s string) {
+	parseCase(s)
 	id := run.NewID()
 	ok, err := createdAccepted(s)
 	obs := "0"
@@ -247,6 +270,109 @@ type spec struct {
 	ConfigAnn map[string]string    `json:"config_ann"`
 	Prefill   []prefill            `json:"prefill"`
 	Backed    map[string]string    `json:"backed"` // digest -> content of user-supplied descriptors present in the target
+	FaultErr  string               `json:"fault_err,omitempty"` // what the failing storage operation returns: "" plain, notfound, dupname, closed
+	// strings that are not valid UTF-8 cannot travel in JSON: hex encoded (hex key -> hex value)
+	HexAT        string            `json:"hex_at,omitempty"`
+	HexAnn       map[string]string `json:"hex_ann,omitempty"`
+	HexConfigAnn map[string]string `json:"hex_config_ann,omitempty"`
+}
+
+func hexMap(m map[string]string) map[string]string {
+	out := map[string]string{}
+	for k, v := range m {
+		out[common.Hex(k)] = common.Hex(v)
+	}
+	return out
+}
+
+func unhexMap(m map[string]string) map[string]string {
+	out := map[string]string{}
+	for k, v := range m {
+		out[common.UnHex(k)] = common.UnHex(v)
+	}
+	return out
+}
+
+func validMap(m map[string]string) bool {
+	for k, v := range m {
+		if !utf8.ValidString(k) || !utf8.ValidString(v) {
+			return false
+		}
+	}
+	return true
+}
+
+// decodeHex restores the raw strings of a replayed spec.
+func (sp *spec) decodeHex() {
+	if sp.HexAT != "" {
+		sp.AT, sp.HexAT = common.UnHex(sp.HexAT), ""
+	}
+	if sp.HexAnn != nil {
+		sp.Ann, sp.HexAnn = unhexMap(sp.HexAnn), nil
+	}
+	if sp.HexConfigAnn != nil {
+		sp.ConfigAnn, sp.HexConfigAnn = unhexMap(sp.HexConfigAnn), nil
+	}
+}
+
+// nonUTF8 reports whether a caller string that reaches the manifest document is not valid UTF-8.
+func (sp *spec) nonUTF8() bool {
+	return !utf8.ValidString(sp.AT) || !validMap(sp.Ann) || !validMap(sp.ConfigAnn)
+}
+
+// sanString is what encoding/json makes of a Go string: every byte that does not start a
+// well-formed UTF-8 sequence becomes U+FFFD.
+func sanString(s string) string {
+	if utf8.ValidString(s) {
+		return s
+	}
+	var b strings.Builder
+	for i := 0; i < len(s); {
+		r, n := utf8.DecodeRuneInString(s[i:])
+		if r == utf8.RuneError && n == 1 {
+			b.WriteString("\uFFFD")
+		} else {
+			b.WriteString(s[i : i+n])
+		}
+		i += n
+	}
+	return b.String()
+}
+
+func sanMap(m map[string]string) map[string]string {
+	if m == nil {
+		return nil
+	}
+	out := map[string]string{}
+	for k, v := range m {
+		out[sanString(k)] = sanString(v)
+	}
+	return out
+}
+
+func sanDescP(d *ocispec.Descriptor) *ocispec.Descriptor {
+	if d == nil {
+		return nil
+	}
+	c := *d
+	c.MediaType, c.ArtifactType, c.Digest = sanString(c.MediaType), sanString(c.ArtifactType), digest.Digest(sanString(string(c.Digest)))
+	c.Annotations = sanMap(c.Annotations)
+	return &c
+}
+
+func sanDoc(m doc) doc {
+	m.AT, m.Ann, m.Config, m.Subject = sanString(m.AT), sanMap(m.Ann), sanDescP(m.Config), sanDescP(m.Subject)
+	var ls []ocispec.Descriptor
+	for i := range m.Layers {
+		ls = append(ls, *sanDescP(&m.Layers[i]))
+	}
+	if m.Layers != nil {
+		m.Layers = ls
+		if ls == nil {
+			m.Layers = []ocispec.Descriptor{}
+		}
+	}
+	return m
 }
 
 var errInjected = errors.New("verif: injected storage fault")
@@ -264,10 +390,28 @@ type storage interface {
 }
 
 type recorder struct {
-	inner  storage
-	events []event
-	ops    int
-	failAt int
+	inner    storage
+	events   []event
+	ops      int
+	failAt   int
+	faultErr string
+}
+
+// fault is the error of the failing storage operation: always recognisable as injected, and
+// optionally also one of the errors real stores return (a Pack that swallows that class
+// would then succeed although the operation failed)
+func (r *recorder) fault(op string) error {
+	switch r.faultErr {
+	case "notfound":
+		return fmt.Errorf("%s: %w: %w", op, errInjected, errdef.ErrNotFound)
+	case "dupname":
+		return fmt.Errorf("%s: %w: %w", op, errInjected, file.ErrDuplicateName)
+	case "closed":
+		return fmt.Errorf("%s: %w: %w", op, errInjected, file.ErrStoreClosed)
+	case "unsupported":
+		return fmt.Errorf("%s: %w: %w", op, errInjected, errdef.ErrUnsupported)
+	}
+	return fmt.Errorf("%s: %w", op, errInjected)
 }
 
 func (r *recorder) push(c context.Context, d ocispec.Descriptor, rd io.Reader) error {
@@ -275,7 +419,7 @@ func (r *recorder) push(c context.Context, d ocispec.Descriptor, rd io.Reader) e
 	r.ops++
 	if op == r.failAt {
 		r.events = append(r.events, event{kind: "P", desc: d, err: errInjected})
-		return fmt.Errorf("push: %w", errInjected)
+		return r.fault("push")
 	}
 	data, err := io.ReadAll(rd)
 	if err != nil {
@@ -291,7 +435,7 @@ func (r *recorder) exists(c context.Context, d ocispec.Descriptor) (bool, error)
 	r.ops++
 	if op == r.failAt {
 		r.events = append(r.events, event{kind: "X", desc: d, err: errInjected})
-		return false, fmt.Errorf("exists: %w", errInjected)
+		return false, r.fault("exists")
 	}
 	ok, err := r.inner.Exists(c, d)
 	r.events = append(r.events, event{kind: "X", desc: d, err: err, found: ok})
@@ -454,8 +598,8 @@ func errKind(err error) string {
 	switch {
 	case err == nil:
 		return "ok"
-	case errors.Is(err, errInjected):
-		return "injected"
+	case errors.Is(err, errInjected), errors.Is(err, file.ErrDuplicateName):
+		return "storage-error" // the target failed: injected fault, or a file store refusing a taken name
 	case errors.Is(err, errdef.ErrInvalidMediaType):
 		return "invalid-media-type"
 	case errors.Is(err, oras.ErrMissingArtifactType):
@@ -568,6 +712,13 @@ func callPack(sp *spec, p content.Pusher) (ocispec.Descriptor, error) {
 	panic("fn " + sp.Fn)
 }
 
+// descOf512 describes data by its SHA-512 digest (registered algorithm, other blob directory /
+// key space in every target).
+func descOf512(mt string, data []byte) ocispec.Descriptor {
+	h := sha512.Sum512(data)
+	return ocispec.Descriptor{MediaType: mt, Digest: digest.Digest("sha512:" + hex.EncodeToString(h[:])), Size: int64(len(data))}
+}
+
 func descOf(mt string, data []byte) ocispec.Descriptor {
 	h := sha256.Sum256(data)
 	return ocispec.Descriptor{MediaType: mt, Digest: digest.Digest("sha256:" + hex.EncodeToString(h[:])), Size: int64(len(data))}
@@ -678,7 +829,17 @@ func expect(sp *spec) expectation {
 }
 
 func specJSON(sp *spec) string {
-	js, err := json.Marshal(sp)
+	c := *sp
+	if !utf8.ValidString(c.AT) {
+		c.HexAT, c.AT = common.Hex(c.AT), ""
+	}
+	if !validMap(c.Ann) {
+		c.HexAnn, c.Ann = hexMap(c.Ann), nil
+	}
+	if !validMap(c.ConfigAnn) {
+		c.HexConfigAnn, c.ConfigAnn = hexMap(c.ConfigAnn), nil
+	}
+	js, err := json.Marshal(&c)
 	if err != nil {
 		panic(err)
 	}
@@ -703,8 +864,8 @@ func packCase(sp *spec) {
 			panic(fmt.Sprintf("prefill %v: %v", d, err))
 		}
 		e := fmt.Sprintf("%s:%s:%d", common.Hex(d.MediaType), common.Hex(string(d.Digest)), d.Size)
-		if d.Annotations[ocispec.AnnotationTitle] != "" {
-			e += ":n" // a named file of the file store
+		if t := d.Annotations[ocispec.AnnotationTitle]; t != "" {
+			e += ":" + common.Hex(t) // a named file of the file store
 		}
 		if err == nil || !seenEntry[e] {
 			storeEntries = append(storeEntries, e)
@@ -738,7 +899,7 @@ func packCase(sp *spec) {
 		repo.Client.(*fakeRegistry).validate = true
 		run.Count("registry_validating")
 	}
-	rec := &recorder{inner: inner, failAt: sp.FailAt}
+	rec := &recorder{inner: inner, failAt: sp.FailAt, faultErr: sp.FaultErr}
 	var p content.Pusher = pusherOnly{rec}
 	if sp.Exists {
 		p = fullStorage{rec}
@@ -761,7 +922,7 @@ func packCase(sp *spec) {
 		}
 		switch {
 		case e.kind == "X":
-			evs = append(evs, fmt.Sprintf("X:%s:%s:%d", common.Hex(d.MediaType), common.Hex(string(d.Digest)), d.Size))
+			evs = append(evs, fmt.Sprintf("X:%s:%s:%d:%s", common.Hex(d.MediaType), common.Hex(string(d.Digest)), d.Size, showAnn(d.Annotations)))
 		case isManifest:
 			manifestPushes++
 			evs = append(evs, fmt.Sprintf("PM:%s:%s:%s", common.Hex(d.MediaType), common.Hex(d.ArtifactType),
@@ -843,7 +1004,7 @@ func packCase(sp *spec) {
 			fail("created-lenient", "%s: created=%q is not RFC 3339 (one of the leniencies of time.Parse) but the call succeeded: %v", sp.Fn, sp.Ann[key], desc)
 		} else if err == nil {
 			fail("bad-created-accepted", "%s: created=%q is malformed but the call succeeded: %v", sp.Fn, sp.Ann[key], desc)
-		} else if kind != "invalid-datetime" && kind != "injected" {
+		} else if kind != "invalid-datetime" && kind != "storage-error" {
 			fail("bad-created-kind", "%s: created=%q malformed, error is %v", sp.Fn, sp.Ann[key], err)
 		}
 		if manifestPushes != 0 && err != nil {
@@ -851,9 +1012,16 @@ func packCase(sp *spec) {
 		}
 		return
 	}
-	if kind == "injected" {
-		if sp.FailAt < 0 || sp.FailAt >= rec.ops {
-			fail("phantom-injected", "injected error without a fault")
+	if kind == "storage-error" {
+		switch {
+		case errors.Is(err, errInjected):
+			if sp.FailAt < 0 || sp.FailAt >= rec.ops {
+				fail("phantom-injected", "injected error without a fault")
+			}
+		case sp.Target == "file" && nameClash(sp):
+			run.Count("file_duplicate_name") // the file store refused a taken file name: Pack reports it
+		default:
+			fail("unexpected-error", "%s(%q) on %s: valid input failed: %v", sp.Fn, sp.AT, sp.Target, err)
 		}
 		return
 	}
@@ -877,8 +1045,17 @@ func packCase(sp *spec) {
 	if desc.MediaType != gotMT || gotMT != map[string]string{"I": ocispec.MediaTypeImageManifest, "A": mtArtifactManifest}[e.want.Kind] {
 		fail("media-type", "descriptor media type %q, manifest mediaType %q, want kind %s", desc.MediaType, gotMT, e.want.Kind)
 	}
+	lossy := false
 	if got.String() != e.want.String() {
-		fail("manifest-fields", "manifest is %s, requested %s", got.String(), e.want.String())
+		if sp.nonUTF8() && got.String() == sanDoc(e.want).String() {
+			// exactly the coercion of invalid UTF-8 by json.Marshal explains the difference
+			lossy = true
+			run.Count("non_utf8_lossy")
+			fail("non-utf8-lossy", "%s: a caller string is not valid UTF-8; the stored manifest carries U+FFFD instead (descriptor and pushed blobs keep the raw bytes): manifest is %s, requested %s",
+				sp.Fn, got.String(), e.want.String())
+		} else {
+			fail("manifest-fields", "manifest is %s, requested %s", got.String(), e.want.String())
+		}
 	}
 	if !hadCreated && got.Ann[key] != nowPlaceholder {
 		fail("created-missing", "no created timestamp of this call in the annotations: %q", got.Ann[key])
@@ -908,7 +1085,7 @@ func packCase(sp *spec) {
 		}
 	}
 	// the result can be copied when everything the caller supplied is there
-	if allBacked(sp, true) {
+	if allBacked(sp, true) && !lossy {
 		run.Count("copy_checked")
 		dst := memory.New()
 		if cerr := oras.CopyGraph(ctx, inner, dst, desc, oras.DefaultCopyGraphOptions); cerr != nil {
@@ -937,7 +1114,12 @@ func packCase(sp *spec) {
 			p2 = fullStorage{rec2}
 		}
 		d2, err2 := callPack(sp, p2)
-		if err2 != nil || !reflect.DeepEqual(d2, desc) {
+		if err2 != nil && sp.Target == "file" && errors.Is(err2, file.ErrDuplicateName) &&
+			(sp.Ann[ocispec.AnnotationTitle] != "" || sp.ConfigAnn[ocispec.AnnotationTitle] != "") {
+			// the file store refuses to write a named file twice (not ErrAlreadyExists): repeating
+			// the call on the same file store is not judged, the fresh-target repeats below are
+			run.Count("file_repeat_refused")
+		} else if err2 != nil || !reflect.DeepEqual(d2, desc) {
 			fail("not-deterministic", "second call on the same target: %v %v, first %v", d2, err2, desc)
 		}
 		// Go maps carry no order: the same annotations inserted in another order (and into maps of
@@ -1053,4 +1235,27 @@ func unsortedAnnotations(data []byte) string {
 		return ""
 	}
 	return walk(false)
+}
+
+// nameClash: a title Pack is asked to put on a blob it pushes itself (config, manifest) is also
+// the name of another file the call meets (ground truth of the generator).
+func nameClash(sp *spec) bool {
+	ct, mt := sp.ConfigAnn[ocispec.AnnotationTitle], sp.Ann[ocispec.AnnotationTitle]
+	if ct == "" && mt == "" {
+		return false
+	}
+	if ct != "" && ct == mt {
+		return true
+	}
+	taken := func(d ocispec.Descriptor) bool {
+		t := d.Annotations[ocispec.AnnotationTitle]
+		_, backed := sp.Backed[string(d.Digest)]
+		return backed && t != "" && (t == ct || t == mt)
+	}
+	for _, l := range sp.Layers {
+		if taken(l) {
+			return true
+		}
+	}
+	return sp.Config != nil && taken(*sp.Config)
 }
